@@ -8,9 +8,9 @@ package stack
 
 import (
 	"bytes"
+	"errors"
 	"fmt"
 	"io"
-	"runtime/debug"
 	"strings"
 
 	"github.com/maruel/panicparse/v2/internal/verifx/h"
@@ -219,36 +219,63 @@ func alphabet(crlf bool) []sym {
 
 // ---- the implementation side -------------------------------------------------------
 
-type implScanner struct {
-	s scanningState
+// implScanner is the implementation side of the product: one line at a time.
+type implScanner interface {
+	step(line []byte) (consumed bool, err error, panicked string)
+	key() string
+	goroutines() []*Goroutine
 }
 
-func newImplScanner() *implScanner {
-	return &implScanner{s: scanningState{Snapshot: &Snapshot{}, state: looking}}
+// newImplScanner makes the implementation side. bfs_inpkg_test.go installs the
+// in-package version (the real scanningState, full internal state as key). If that
+// file no longer compiles against the tree the driver drops it and the search runs
+// on this public-API version: every step re-scans the lines fed so far with
+// ScanSnapshot; the state key is then what the public API shows.
+var newImplScanner = func() implScanner { return &publicScanner{} }
+
+var implScannerKind = "public API (ScanSnapshot re-scan per step; per-step consumption is not observable there, so steps follow the reference automaton and every trace is judged through the resume loop)"
+
+// implStepComparable: the implementation side reports per-line consumption reliably.
+var implStepComparable = false
+
+type publicScanner struct {
+	fed  []byte
+	last scanResult
 }
 
-func (i *implScanner) step(line []byte) (consumed bool, err error, panicked string) {
-	defer func() {
-		if e := recover(); e != nil {
-			panicked = fmt.Sprintf("%v\n%s", e, debug.Stack())
-		}
-	}()
-	consumed, err = i.s.scan(line)
-	return
+func (p *publicScanner) step(line []byte) (bool, error, string) {
+	p.fed = append(p.fed, line...)
+	res := scanOnce(bytes.NewReader(p.fed), plainOpts())
+	p.last = res
+	if res.panicked != "" {
+		return false, nil, res.panicked
+	}
+	consumed := !bytes.HasSuffix(res.suffix, line) && !bytes.HasSuffix(res.prefix, line)
+	err := res.err
+	if err == io.EOF {
+		err = nil
+	}
+	if !consumed {
+		// the line is not part of what will be fed to the continuation of this path
+		p.fed = p.fed[:len(p.fed)-len(line)]
+	}
+	return consumed, err, ""
 }
 
-func (i *implScanner) inDump() bool {
-	st := i.s.state
-	return st != looking && st != done && st != gotRaceHeader1 && st != gotRaceHeader2
-}
-
-func (i *implScanner) key() string {
+func (p *publicScanner) key() string {
 	var b strings.Builder
-	fmt.Fprintf(&b, "%d|%q|%d", int(i.s.state), i.s.prefix, i.s.goroutineIndex)
-	for _, g := range i.s.Goroutines {
+	fmt.Fprintf(&b, "pub|%d", len(p.last.prefix))
+	for _, g := range p.goroutines() {
 		fmt.Fprintf(&b, "|%d,%v,%q,%d,%v,%d,%v,%v,%v,%d", g.ID, g.First, g.State, len(g.Stack.Calls), g.Stack.Elided, len(g.CreatedBy.Calls), g.RaceAddr != 0, g.RaceWrite, g.Locked, g.SleepMax)
 	}
 	return b.String()
+}
+
+func (p *publicScanner) goroutines() []*Goroutine {
+	if p.last.snap == nil {
+		return nil
+	}
+	return p.last.snap.Goroutines
 }
 
 // skeletonDiff compares the goroutine skeleton of the implementation with the model's.
@@ -357,7 +384,7 @@ func compareStep(before rline.St, s *sym, consumed bool, err error, panicked str
 
 // replay runs a path on fresh instances of both sides. It returns nil scanners if
 // the path itself no longer agrees (cannot happen for explored paths).
-func replayPath(alpha []sym, path []int) (*implScanner, *rline.Model) {
+func replayPath(alpha []sym, path []int) (implScanner, *rline.Model) {
 	im := newImplScanner()
 	m := &rline.Model{}
 	for _, si := range path {
@@ -429,10 +456,17 @@ func runBFS(alpha []sym, caps bfsCaps, hooks bfsHooks, expired func() bool) (res
 			consumed, err, panicked := im.step(s.l.Bytes())
 			o := m.Step(s.l)
 			res.transitions++
+			if !implStepComparable && panicked == "" {
+				// follow the model; the trace validation is the oracle
+				consumed, err = o.Consume, nil
+				if !o.Consume && o.Err == rline.MustErr {
+					err = errors.New("(not observable)")
+				}
+			}
 			v := compareStep(before, s, consumed, err, panicked, o, inDumpBefore)
 			skel := ""
-			if v == nil && o.Consume && m.InDump() {
-				if d := skeletonDiff(im.s.Goroutines, m.Gs); d != "" {
+			if v == nil && o.Consume && m.InDump() && implStepComparable {
+				if d := skeletonDiff(im.goroutines(), m.Gs); d != "" {
 					skel = d
 				}
 			}
